@@ -253,3 +253,75 @@ Proof.
     - apply Hfin. apply (Hcl x fd IH Hl m Hm Hmg). }
   intros x Hr. destruct (A4 x (Hreach x Hr)) as [[]|Hex]. exact Hex.
 Qed.
+
+(** ** determinism: the fingerprint does not depend on the identities (addresses) of the function objects *)
+Section Renaming.
+  Variable f : N -> N.
+  Hypothesis f_inj : forall a b, f a = f b -> a = b.
+
+  Definition ren_fn (fd : fn) : fn := mkFn (f_name fd) (f_code fd) (map f (f_mentions fd)).
+  Definition ren_graph (g : graph) : graph := map (fun kf => (f (fst kf), ren_fn (snd kf))) g.
+  Definition ren_st (s : st) : st := mkSt (map f (asked s)) (map f (finished s)).
+  Definition ren_res (r : res) : res :=
+    match r with Done ts s => Done ts (ren_st s) | OutOfFuel => OutOfFuel end.
+
+  Lemma lookup_ren g k : lookup (f k) (ren_graph g) = option_map ren_fn (lookup k g).
+  Proof.
+    induction g as [|[a fd] g IH]; simpl; [reflexivity|].
+    destruct (N.eqb_spec k a) as [->|Hne].
+    - rewrite N.eqb_refl. reflexivity.
+    - destruct (N.eqb_spec (f k) (f a)) as [E|_]; [apply f_inj in E; contradiction|exact IH].
+  Qed.
+
+  Lemma mem_ren k l : mem (f k) (map f l) = mem k l.
+  Proof.
+    induction l as [|a l IH]; simpl; [reflexivity|].
+    rewrite IH. f_equal.
+    destruct (N.eqb_spec k a) as [->|Hne]; [apply N.eqb_refl|].
+    destruct (N.eqb_spec (f k) (f a)) as [E|_]; [apply f_inj in E; contradiction|reflexivity].
+  Qed.
+
+  Lemma cont_ren r t : ren_res (cont r t) = cont (ren_res r) t.
+  Proof. destruct r; reflexivity. Qed.
+
+  Lemma walk_ren fuel : forall g s fs,
+    walk fuel (ren_graph g) (ren_st s) (map f fs) = ren_res (walk fuel g s fs).
+  Proof.
+    induction fuel as [|fuel IHf]; intros g s fs; revert s;
+      induction fs as [|x rest IHr]; intros s; try reflexivity.
+    - cbn [map]. rewrite !walk_cons, lookup_ren.
+      destruct (lookup x g) as [fd|]; cbn [option_map].
+      + cbn [ren_st asked finished ren_fn f_name]. rewrite !mem_ren.
+        destruct (mem x (finished s)); [rewrite cont_ren, <- IHr; reflexivity|].
+        destruct (mem x (asked s)); [rewrite cont_ren, <- IHr; reflexivity|reflexivity].
+      + rewrite cont_ren, <- IHr. reflexivity.
+    - cbn [map]. rewrite !walk_cons, lookup_ren.
+      destruct (lookup x g) as [fd|]; cbn [option_map].
+      + cbn [ren_st asked finished ren_fn f_name f_code f_mentions]. rewrite !mem_ren.
+        destruct (mem x (finished s)); [rewrite cont_ren, <- IHr; reflexivity|].
+        destruct (mem x (asked s)); [rewrite cont_ren, <- IHr; reflexivity|].
+        change (mkSt (f x :: map f (asked s)) (map f (finished s))) with (ren_st (mkSt (x :: asked s) (finished s))).
+        rewrite IHf. destruct (walk fuel g (mkSt (x :: asked s) (finished s)) (f_mentions fd)) as [children s1|]; [|reflexivity].
+        cbn [ren_res ren_st asked finished].
+        change (mkSt (map f (asked s1)) (f x :: map f (finished s1))) with (ren_st (mkSt (asked s1) (x :: finished s1))).
+        rewrite cont_ren, <- IHr. reflexivity.
+      + rewrite cont_ren, <- IHr. reflexivity.
+  Qed.
+
+  (** two loads whose function objects differ only in identity (address, allocation order) yield the same fingerprint *)
+  Theorem fingerprint_independent_of_identities g x :
+    match fingerprint g x, fingerprint (ren_graph g) (f x) with
+    | Done t1 _, Done t2 _ => t1 = t2
+    | OutOfFuel, OutOfFuel => True
+    | _, _ => False
+    end.
+  Proof.
+    unfold fingerprint.
+    assert (E : length (ren_graph g) = length g) by (unfold ren_graph; apply map_length).
+    rewrite E.
+    assert (W : walk (S (length g)) (ren_graph g) (mkSt [] []) [f x] = ren_res (walk (S (length g)) g (mkSt [] []) [x])).
+    { exact (walk_ren (S (length g)) g (mkSt [] []) [x]). }
+    rewrite W.
+    destruct (walk (S (length g)) g (mkSt [] []) [x]); cbn [ren_res]; [reflexivity|exact I].
+  Qed.
+End Renaming.
